@@ -24,12 +24,13 @@ DEFAULT_TIMEOUT = 20.0
 
 
 class R(object):
-    __slots__ = ('argv', 'rc', 'out', 'err', 'trace', 'timed_out', 'wall', 'maxrss_kb')
+    __slots__ = ('argv', 'rc', 'out', 'err', 'trace', 'timed_out', 'wall', 'maxrss_kb', 'flooded')
 
     def __init__(self):
         self.trace = ''
         self.timed_out = False
         self.maxrss_kb = 0
+        self.flooded = False
 
     @property
     def signaled(self):
@@ -39,6 +40,77 @@ class R(object):
         return {'argv': self.argv, 'rc': self.rc, 'timed_out': self.timed_out,
                 'stdout_head': self.out[:400].decode('latin1'),
                 'stderr_head': self.err[:1500].decode('latin1')}
+
+
+def _pump(p, stdin, timeout, max_output):
+    """communicate() with a cap on the amount of output kept: a process that
+    floods its output is killed (and reported like a hang) instead of
+    exhausting the memory of the harness"""
+    import selectors
+    sel = selectors.DefaultSelector()
+    bufs = {p.stdout: [], p.stderr: []}
+    sizes = {p.stdout: 0, p.stderr: 0}
+    sel.register(p.stdout, selectors.EVENT_READ)
+    sel.register(p.stderr, selectors.EVENT_READ)
+    inp = memoryview(stdin or b'')
+    off = 0
+    if p.stdin is not None:
+        if len(inp):
+            os.set_blocking(p.stdin.fileno(), False)
+            sel.register(p.stdin, selectors.EVENT_WRITE)
+        else:
+            p.stdin.close()
+    deadline = time.time() + timeout
+    timed_out = flooded = False
+    open_out = 2
+    while open_out:
+        left = deadline - time.time()
+        if left <= 0:
+            timed_out = True
+            break
+        for key, ev in sel.select(min(left, 1.0)):
+            f = key.fileobj
+            if f is p.stdin:
+                try:
+                    n = os.write(f.fileno(), inp[off:off + 65536])
+                    off += n
+                except BlockingIOError:
+                    n = 0
+                except (BrokenPipeError, OSError):
+                    off = len(inp)
+                if off >= len(inp):
+                    sel.unregister(f)
+                    try:
+                        f.close()
+                    except OSError:
+                        pass
+            else:
+                c = os.read(f.fileno(), 1 << 16)
+                if not c:
+                    sel.unregister(f)
+                    open_out -= 1
+                else:
+                    sizes[f] += len(c)
+                    if sizes[f] <= max_output:
+                        bufs[f].append(c)
+                    else:
+                        flooded = True
+        if flooded:
+            break
+    if timed_out or flooded:
+        p.kill()
+    try:
+        p.wait(timeout=10)
+    except subprocess.TimeoutExpired:
+        p.kill()
+        p.wait()
+    for f in (p.stdout, p.stderr, p.stdin):
+        try:
+            if f is not None:
+                f.close()
+        except OSError:
+            pass
+    return b''.join(bufs[p.stdout]), b''.join(bufs[p.stderr]), timed_out or flooded, flooded
 
 
 def _preexec(fsize, ignore_sigpipe, as_limit):
@@ -55,7 +127,7 @@ def _preexec(fsize, ignore_sigpipe, as_limit):
 
 def run(argv, stdin=b'', env=None, cwd=None, timeout=DEFAULT_TIMEOUT, fsize=None,
         trace=False, stdout_file=None, stdout_pipe_limit=None, as_limit=None,
-        ignore_sigpipe=False):
+        ignore_sigpipe=False, max_output=64 << 20):
     """Run argv.  stdout_file: path to which stdout is redirected (for
     RLIMIT_FSIZE faults); stdout_pipe_limit: close the read end of stdout
     after that many bytes (EPIPE fault, SIGPIPE ignored in the child)."""
@@ -113,6 +185,8 @@ def run(argv, stdin=b'', env=None, cwd=None, timeout=DEFAULT_TIMEOUT, fsize=None
                 _, err = p.communicate()
                 r.timed_out = True
             out = got
+        elif so is subprocess.PIPE:
+            out, err, r.timed_out, r.flooded = _pump(p, stdin, timeout, max_output)
         else:
             try:
                 out, err = p.communicate(stdin, timeout=timeout)
@@ -189,6 +263,8 @@ def clean_failure_key(r, allowed_rc=(0, 1, 2)):
     """Key describing an unclean termination of r, or None when r terminated
     by exit with an allowed status (sanitizer-free).  Used by every check
     that runs hostile inputs."""
+    if r.flooded:
+        return 'hang:output-flood'
     if r.timed_out:
         return 'hang'
     k = classify_report(r.err)
@@ -205,3 +281,30 @@ def clean_failure_key(r, allowed_rc=(0, 1, 2)):
     if r.rc not in allowed_rc:
         return 'exit-status:%d' % r.rc
     return None
+
+
+def hang_budget(default=20.0, short=4.0):
+    """watchdog limit for one run: once any worker of this check has seen a
+    hang (it then creates the flag file) later runs get a short limit, so a
+    tree that hangs on a whole class of inputs does not cost a full watchdog
+    period per case"""
+    flag = os.environ.get('VERIF_HANGFLAG')
+    return short if (flag and os.path.exists(flag)) else default
+
+
+def note_hang():
+    flag = os.environ.get('VERIF_HANGFLAG')
+    if flag:
+        try:
+            open(flag, 'w').close()
+        except OSError:
+            pass
+
+
+def arm_hang_flag():
+    """called by a check's main() before the pool starts; returns the path to remove afterwards"""
+    flag = '/dev/shm/verif-hangflag-%d' % os.getpid()
+    if os.path.exists(flag):
+        os.unlink(flag)
+    os.environ['VERIF_HANGFLAG'] = flag
+    return flag
